@@ -46,6 +46,15 @@ func genLakeCase(t *rapid.T) LakeCase {
 	// the two columns the auto-vectorized shapes look at
 	sKinds := pickOf(t, "s-kinds", [][]string{{"string"}, {"string"}, {"string"}, {"string"}, {"string", "nullstr"}, {"string", "missing"}, {"string", "int64"}, {"int64"}, {"string", "nullstr", "missing"}, {"bool"}})
 	nKinds := pickOf(t, "n-kinds", [][]string{{"int64"}, {"int64"}, {"int64"}, {"int64"}, {"int64", "nullint"}, {"int32", "nullint"}, {"uint64"}, {"float64q"}, {"int64", "float64q"}, {"int64", "nullint"}, {"int64", "missing"}, {"int64", "string"}, {"int32"}, {"int64", "uint64"}})
+	// a quarter of the cases aim at the part of the space where the vector Sum is right today (so that a change there
+	// shows): integer n with nulls, dictionary encoded (2..256 distinct values per object and record type), objects of
+	// several values, and sum(n) among the programs
+	cleanSum := chance(t, 25, "clean-sum")
+	if cleanSum {
+		nKinds = pickOf(t, "clean-n-kinds", [][]string{{"int64", "nullint"}, {"int64", "int64", "nullint"}, {"int64"}, {"int32", "nullint"}})
+		sKinds = []string{"string"}
+		c.Pool.Thresh = pickOf(t, "clean-thresh", []int64{200, 0, 120})
+	}
 	nb := ir(t, 1, 3, "nbatches")
 	// 6%: one long load into large objects, so that columns with more than 256 distinct values (plain vectors) occur
 	long := chance(t, 6, "long")
@@ -58,11 +67,17 @@ func genLakeCase(t *rapid.T) LakeCase {
 			if long && i == 0 {
 				return "plain"
 			}
+			if cleanSum {
+				return "dict"
+			}
 			return pick(t, name+"-enc", "const", "dict", "dict")
 		}
 		s := newCol(t, "s", sKinds, enc("s"))
 		n := newCol(t, "n", nKinds, enc("n"))
 		rows := ir(t, 1, 12, "rows")
+		if cleanSum {
+			rows = ir(t, 5, 14, "rows-clean")
+		}
 		if long && i == 0 {
 			rows = ir(t, 258, 280, "rows-long")
 		}
@@ -92,6 +107,9 @@ func genLakeCase(t *rapid.T) LakeCase {
 	np := ir(t, 1, 3, "nprogs")
 	for i := 0; i < np; i++ {
 		c.Progs = append(c.Progs, pickOf(t, "prog", progs))
+	}
+	if cleanSum {
+		c.Progs[0] = pickOf(t, "clean-prog", []LakeProg{progs[2], progs[2], progs[10]})
 	}
 	for i, ns := 0, ir(t, 1, 3, "nsome"); i < ns; i++ {
 		c.Some = append(c.Some, ir(t, 0, 7, "some"))
@@ -507,12 +525,12 @@ func runLakeCase(c LakeCase) *vt.Outcome {
 	refs := make([]lakeRun, len(c.Progs))
 	for i, p := range c.Progs {
 		refs[i] = e.run(p.Text)
-		if refs[i].err != nil {
-			o.Skip = "reference-error: " + errClass(refs[i].err)
+		if refs[i].vectorize {
+			o.Fail = fail("C09/lake/vectorize-without-vectors", "%q: the plan contains dag.Vectorize although no object has vectors (query error: %v)", p.Text, refs[i].err)
 			return o
 		}
-		if refs[i].vectorize {
-			o.Fail = fail("C09/lake/vectorize-without-vectors", "%q: the plan contains dag.Vectorize although no object has vectors", p.Text)
+		if refs[i].err != nil {
+			o.Skip = "reference-error: " + errClass(refs[i].err)
 			return o
 		}
 	}
